@@ -344,6 +344,8 @@ def sample_from(ctx, js, path):
     extra = {"help": 1, "ctor": 1}
     with open(path) as f:
         for l in f:
+            if not (l.startswith('{"f":"parse') or l.startswith('{"f":"ctor"')):
+                continue
             if '"ok":true' in l and '"rec"' in l and len(seen) < 3 and l.count(",") > 9 and l.count("{") > 5:
                 r = json.loads(l)
                 if r["s"] in seen or len(r["a"]) < 3:
